@@ -84,6 +84,7 @@ type Contract struct {
 	GhostEntry []Clause // "ghost_entry x.f = expr": ghost assignments performed at function entry
 	GhostSet  []Clause // "ghost_assign x.f = expr": ghost assignments performed at every normal exit
 	GhostAfter []Clause // "ghost_after callee x.f = expr": performed after each direct call of a matching callee
+	PanicsOf  []string // "panics name...": callees treated as may_panic while verifying this function only
 	Focus     []string // "focus name...": thin contract - only the obligations of the named clauses (and the vacuity guards) are claimed
 }
 
@@ -486,6 +487,8 @@ func (db *SpecDB) LoadFile(path, pkgPath string) error {
 			cur.GhostAfter = append(cur.GhostAfter, Clause{Kind: word, Name: w3, Text: r3, File: path, Line: ln})
 		case "uses":
 			cur.Uses = append(cur.Uses, strings.Fields(rest)...)
+		case "panics":
+			cur.PanicsOf = append(cur.PanicsOf, strings.Fields(rest)...)
 		case "focus":
 			// thin contract: of all the obligations the body generates only those that belong to the named clauses
 			// (an ensures clause of this function, or a named requires clause of a callee) are claimed, together with
